@@ -39,16 +39,14 @@ int munmap (void *addr, size_t length) {
 size_t g_dirlen;
 size_t strlen (const char *s) {
   __CPROVER_assert(__CPROVER_r_ok(s, 1), "strlen argument readable");
-  if (s == g_env_val) { size_t k = nondet_ulong(); __CPROVER_assume(k <= 7 && g_env_val[k] == 0); return k; }
-  /* string literal: CBMC knows its size */
-  size_t k = 0; while (s[k] != 0) k++; return k;
+  /* environment value (8 bytes, NUL at [7] at the latest) or a string literal: position of the first NUL */
+  size_t k = 0;
+  while (s[k] != 0) k++;
+  return k;
 }
-int sprintf (char *buf, const char *fmt, ...) {
-  __builtin_va_list ap; __builtin_va_start(ap, fmt);
-  const char *dir = __builtin_va_arg(ap, const char *);
-  size_t n = strlen(dir) + 15;
+int verif_sprintf3 (char *buf, const char *fmt, const char *dir) {
+  size_t n = strlen(dir) + 15;   /* "%s/orcexec.XXXXXX" */
   __CPROVER_assert(__CPROVER_w_ok(buf, n + 1), "sprintf result fits the buffer");
   buf[n] = 0;
-  __builtin_va_end(ap);
   return (int)n;
 }
